@@ -189,7 +189,13 @@ func ReadUintVariable(data []byte) (uint64, int, ExitReason) {
 			return 0, 0, ExitPanic
 		}
 
-		return binary.LittleEndian.Uint64(data[1:9]), 9, ExitContinue
+		// the 9-byte form is only the encoding of x >= 2^56
+		x := binary.LittleEndian.Uint64(data[1:9])
+		if x < (uint64(1) << 56) {
+			pvmLogger.Errorf("readUintVariable: invalid encoding")
+			return 0, 0, ExitPanic
+		}
+		return x, 9, ExitContinue
 	}
 
 	l := bits.LeadingZeros8(^prefix)
